@@ -24,13 +24,13 @@ use solana_program::instruction::AccountMeta;
 use solana_program::pubkey::Pubkey;
 use std::collections::BTreeMap;
 
-struct Sc {
-    w: World,
-    s: Store,
+pub struct Sc {
+    pub w: World,
+    pub s: Store,
     /// the two accounts that can be put into receivership (indices into w.users)
-    subj: [usize; 2],
-    liq: usize,
-    max_fee: f64,
+    pub subj: [usize; 2],
+    pub liq: usize,
+    pub max_fee: f64,
 }
 
 fn bank(label: &str, mint: &str, dec: u8, usd_e8: i64) -> BankSpec {
@@ -43,7 +43,7 @@ fn bank(label: &str, mint: &str, dec: u8, usd_e8: i64) -> BankSpec {
 }
 
 /// coll / debt in dollars for the two subject accounts
-fn scene(tag: &str, max_fee: f64, coll: [f64; 2], debt: [f64; 2]) -> Sc {
+pub fn scene(tag: &str, max_fee: f64, coll: [f64; 2], debt: [f64; 2]) -> Sc {
     let mut spec = WorldSpec::new(&format!("C10{tag}"), vec![bank("RA", "c10a", 6, 100_000_000), bank("RL", "c10l", 9, 2_500_000_000)], &["x0", "x1", "liq", "seeder", "fresh"]);
     spec.liquidation_max_fee = I80F48::from_num(max_fee);
     let (w, mut s) = build_world(&spec);
@@ -94,7 +94,7 @@ pub enum Sym {
     WithdrawViaAllowedCpi(u8),
 }
 
-fn alphabet(tier: Tier) -> Vec<Sym> {
+pub fn alphabet(tier: Tier) -> Vec<Sym> {
     let mut v = vec![Sym::ComputeBudget, Sym::InitRecordFresh, Sym::KaminoRefresh, Sym::Start(0), Sym::Start(1), Sym::End(0), Sym::End(1), Sym::WithdrawSmall(0), Sym::RepayMid(0), Sym::WithdrawSmall(1), Sym::RepayMid(1), Sym::WithdrawBig(0), Sym::Deposit(0), Sym::Jupiter, Sym::NotAllowedProgram, Sym::ShortAllowed, Sym::StartViaCpi(0), Sym::EndViaCpi(0), Sym::WithdrawViaCpi(0)];
     if tier == Tier::Thorough {
         v.push(Sym::RepayViaCpi(0));
@@ -102,11 +102,11 @@ fn alphabet(tier: Tier) -> Vec<Sym> {
     v
 }
 
-fn proxy() -> Pubkey {
+pub fn proxy() -> Pubkey {
     key("c10:proxy_program")
 }
 
-fn build_ix(sc: &Sc, s: &Store, sym: Sym) -> Ix {
+pub fn build_ix(sc: &Sc, s: &Store, sym: Sym) -> Ix {
     let w = &sc.w;
     let liq = w.users[sc.liq].authority;
     let acct = |i: u8| w.users[sc.subj[i as usize]].account;
@@ -114,7 +114,7 @@ fn build_ix(sc: &Sc, s: &Store, sym: Sym) -> Ix {
     let ta = |b: usize| w.users[sc.liq].tokens[&w.banks[b].mint];
     let noop = |program: Pubkey, data: Vec<u8>| Ix { program_id: program, accounts: vec![], data, proxy: None };
     match sym {
-        Sym::ComputeBudget => noop(marginfi::constants::COMPUTE_PROGRAM_KEY, vec![2, 0, 0, 0, 0]),
+        Sym::ComputeBudget => noop(marginfi::constants::COMPUTE_PROGRAM_KEY, vec![2, 0x40, 0x0d, 0x03, 0]),
         Sym::InitRecordFresh => ix::init_liq_record(w.users[4].account, liq),
         Sym::KaminoRefresh => {
             use anchor_lang::Discriminator;
@@ -212,13 +212,13 @@ fn markers_clear(sc: &Sc, s: &Store, out: &mut Vec<(String, String)>) {
     }
 }
 
-struct ShapeOut {
-    committed: bool,
-    class: String,
-    found: Vec<Found>,
+pub struct ShapeOut {
+    pub committed: bool,
+    pub class: String,
+    pub found: Vec<Found>,
 }
 
-fn run_shape(sc: &Sc, list: &[Sym]) -> ShapeOut {
+pub fn run_shape(sc: &Sc, list: &[Sym]) -> ShapeOut {
     let w = &sc.w;
     let liq = w.users[sc.liq].authority;
     let ixs: Vec<Ix> = list.iter().map(|s| build_ix(sc, &sc.s, *s)).collect();
@@ -246,7 +246,7 @@ fn run_shape(sc: &Sc, list: &[Sym]) -> ShapeOut {
     ShapeOut { committed: true, class: format!("committed:{}", if controlled > 0 { "took_control" } else { "no_control" }), found }
 }
 
-fn shapes(alpha: &[Sym], max_len: usize) -> Vec<Vec<Sym>> {
+pub fn shapes(alpha: &[Sym], max_len: usize) -> Vec<Vec<Sym>> {
     let mut all: Vec<Vec<Sym>> = vec![];
     let mut frontier: Vec<Vec<Sym>> = vec![vec![]];
     for _ in 0..max_len {
